@@ -61,16 +61,14 @@ def run(prop, tier, seed, replay=None):
                 if r["has_file"] and r["u"]["v"] and r["result"]["v"] and ncan < 3:
                     bad = copy.deepcopy(r)
                     bad["result"]["v"] = bad["result"]["v"][1:]
+                    traces.append([copy.deepcopy(r)])      # control
                     traces.append([bad])
                     ncan += 1
                     break
     acc, rej, stats = tlc.judge("AwConfigTrace", JUDGE, traces, tag="judge_c20", chunk=60)
     rep.add_judge_stats(stats)
     nreal = len(parts)
-    for ci in range(nreal, nreal + ncan):
-        if ci in acc:
-            raise tlc.TLCFailure("canary (a key dropped from the effective configuration) accepted by the judge")
-    rep.notes["canaries_rejected"] = ncan
+    rep.notes["canaries_rejected"] = tlc.check_canary_pairs(acc, nreal, ncan, "a key dropped from the effective configuration")
     rep.cov.update(traces_validated_against_impl=nreal, evaluations=len(cases), distinct_nontrivial=len({repr(c[:3]) for c in cases if c[0]["v"]}),
                    rule="all pairs of 17 small documents (0-2 keys, nesting <= 2, scalar <-> table type changes) with an existing file, each small document without a file, plus random documents of nesting <= 3 over 4 keys and leaf kinds "
                         "int/str/float/bool/array, user files with comments; every case in a fresh config directory; non-trivial = non-empty defaults; distinct by (defaults, user file, file present)")
